@@ -40,6 +40,7 @@ pub struct MonSet {
     pub c13: bool,
     pub c14: bool,
     pub c15: bool,
+    pub c16: bool,
     pub c17: bool,
     pub c20: bool,
 }
@@ -539,13 +540,19 @@ impl World {
             return self.v("C02", "phantom", d);
         }
         let rep = &self.reps[r];
-        let all_lo = rep.model.handed.keys().all(|u| lo.contains(u)) && rep.model.del.iter().all(|u| lo.contains(u));
+        // "must not report missing": every *form* in which a unit was handed has its dependencies
+        // integrated (a live form may still sit in the stash, waiting for its parent, although the
+        // same unit has meanwhile been integrated from a GC form that needs nothing)
+        let all_lo = rep.model.handed.iter().all(|(u, alts)| lo.contains(u) && alts.iter().all(|deps| deps.iter().all(|d| lo.contains(d)))) && rep.model.del.iter().all(|u| lo.contains(u));
         let some_out = rep.model.handed.keys().any(|u| !up.contains(u)) || rep.model.del.iter().any(|u| !up.contains(u));
         if some_out {
             self.cnt.inc("causal_checks_with_absent_dependency");
         }
         if all_lo && missing {
-            return self.v("C02", "false-missing", format!("r{} reports missing updates although everything it was handed is causally closed", id));
+            let txn = self.reps[r].doc.transact();
+            let pend = format!("pending update: {:?} ; pending delete set: {:?}", txn.store().pending_update().map(|p| format!("{:?} missing {:?}", p.update, p.missing)), txn.store().pending_ds());
+            drop(txn);
+            return self.v("C02", "false-missing", format!("r{} reports missing updates although everything it was handed is causally closed; {}", id, pend));
         }
         if some_out && !missing {
             return self.v("C02", "lost", format!("r{} reports no missing updates although a block it was handed still lacks a dependency (dropped instead of stashed)", id));
